@@ -74,7 +74,7 @@ ASSUMPTIONS = [
     'Non-integer `where` (True, 0.0, "0") must be rejected by TypeError or a TransformError; out-of-range integers by TransformReferenceError.',
 ]
 EXHAUSTIVE = {'quick': False, 'thorough': False}
-FLOORS = {'two-sites-one-block': 50, 'nested-sites': 50, 'refusal-between-sites': 20,
+FLOORS = {'if-expression-with-sites-in-condition-and-arm': 30, 'two-sites-one-block': 50, 'nested-sites': 50, 'refusal-between-sites': 20,
           'hist:>=2-edits-before-cursor-block': 10, 'hist:cursor-resolved': 100, 'hist:cursor-raised': 100,
           'hist:resolved-across>=2-steps': 50, 'hist:aimed-with-old-cursor-that-moved': 10,
           'hist:held-across-a-pass-that-reports-nothing': 50}
@@ -546,7 +546,7 @@ def compose(cfg, f, idxs):
     return g
 
 
-def check_rewrote_site(res, universe, f, g, j, regions, ref_regions, site_pos, ref_pos, cj, tag):
+def check_rewrote_site(res, universe, f, g, j, regions, ref_regions, site_pos, ref_pos, cj, tag, site_node=None):
     """`g = strategy(f, where=j)`: exactly the run of statements site j names was rewritten (structural diff along
     its path), it kept its watermarks, the reported edit describes that rewrite, and every statement of `f`
     forwards as the reference model says."""
@@ -575,6 +575,16 @@ def check_rewrote_site(res, universe, f, g, j, regions, ref_regions, site_pos, r
                  expected=f'only site {j} at {list(spath)} rewritten', got=reason + '\n' + g.format()[:1200])
         return False
     orig = M.get_block(f.ast, bpath).stmts[start:stop]
+    if isinstance(site_node, A.Expr) and length == 1 and type(X[-1]) is type(orig[0]):
+        # an expression site: *which* expression of the statement went away.  The statement that held it comes last
+        # in X; the only sub-expression it does not reproduce must be the one the listed cursor names.
+        ea, eb = M.stmt_own_exprs(orig[0]), M.stmt_own_exprs(X[-1])
+        gone = [r for x, y in zip(ea, eb) for r in M.diff_roots(x, y)] if len(ea) == len(eb) else None
+        if gone is None or len(gone) != 1 or gone[0] is not site_node:
+            res.fail(f'{tag}where-index/rewrote-another-expression-of-the-statement', cj,
+                     expected=f'only site {j}, `{site_node.format()[:120]}`, replaced in `{orig[0].format()[:200]}`',
+                     got=(['?'] if gone is None else [x.format()[:120] for x in gone]) + [X[-1].format()[:300]])
+            return False
     m_s, m_x = M.marks_of(orig, universe), M.marks_of(X, universe)
     if m_s != m_x:
         # a loop whose iterable is statically empty is dropped: only `t = <iterable>` is left (split: "empty
@@ -678,6 +688,20 @@ def check_single(res: Result, prog: Prog, desc, rnd=None):
         if rnd.int(0, 199) == 0:
             res.sample({'src': prog.src, 'cfg': desc, 'k': k, 'refusals': len(refs)}, nt=True)
     res.cls('strategy:' + cfg.s)
+    if cfg.kind == 'expr' and k >= 2:
+        # several sites inside one expression whose visit order is not source order
+        for _, _, e in M.all_exprs(f.ast):
+            if isinstance(e, A.IfExpr):
+                in_cond = any(id(x) in sid for x in M.expr_preorder(e.cond))
+                in_arm = any(id(x) in sid for x in M.expr_preorder(e.ift)) or any(id(x) in sid for x in M.expr_preorder(e.iff))
+                if in_cond and in_arm:
+                    res.cls('if-expression-with-sites-in-condition-and-arm')
+                    break
+        for _, _, e in M.all_exprs(f.ast):
+            if isinstance(e, (A.Compare, A.And, A.Or, A.ListComp)) and sum(
+                    1 for c in M.expr_children(e) if any(id(x) in sid for x in M.expr_preorder(c))) >= 2:
+                res.cls('several-sites-under-one-comparison-or-connective')
+                break
     if rnd.int(0, 399) == 0:
         res.sample({'src': prog.src, 'cfg': desc, 'k': k, 'refusals': len(refs)})
 
@@ -720,7 +744,8 @@ def check_single(res: Result, prog: Prog, desc, rnd=None):
             continue
         by_index[j] = g
         check_rewrote_site(res, prog.universe, f, g, j, regions, [cursor_region(c) for c, _ in refs],
-                           [cand_ids.get(id(n), -1) for n in site_nodes], pos_r, cj, tag)
+                           [cand_ids.get(id(n), -1) for n in site_nodes], pos_r, cj, tag,
+                           site_node=site_nodes[j] if cfg.kind == 'expr' else None)
 
     # ---- where = None -------------------------------------------------------
     res.case()
@@ -1089,10 +1114,12 @@ class History:
                 return
             old = self.held[w['held'] % len(self.held)]
             where = old['cursor']
-        regions_before = None
+        regions_before = nodes_before = None
         if isinstance(where, int):
             try:
-                regions_before = [cursor_region(c) for c in cfg.sites(f)]
+                ss = cfg.sites(f)
+                regions_before = [cursor_region(c) for c in ss]
+                nodes_before = [c.resolve() for c in ss] if cfg.kind == 'expr' else None
             except Exception:
                 regions_before = None
         try:
@@ -1129,7 +1156,8 @@ class History:
         if isinstance(where, int) and regions_before is not None and 0 <= where < len(regions_before) and g.ast is not f.ast:
             # the single-step contract on a *derived* program (generated statements, copies of watermarks)
             res.cls(self.cp + ':index-aim-checked')
-            check_rewrote_site(res, self.prog.universe, f, g, where, regions_before, [], [], [], self.snapshot(), f'{cfg.s}: ')
+            check_rewrote_site(res, self.prog.universe, f, g, where, regions_before, [], [], [], self.snapshot(), f'{cfg.s}: ',
+                               site_node=nodes_before[where] if nodes_before else None)
             pushed = True
         if old is not None:
             res.cls(self.cp + ':aimed-with-old-cursor')
